@@ -1156,6 +1156,61 @@ func domFactsE(b *ssa.BasicBlock, depth int, busy map[*ssa.BasicBlock]bool, ext 
 			}
 		}
 	}
+	// a pointer/func/interface φ with nil on some edges, tested against nil: "x := nil; if c { x = v }; if x != nil {…}"
+	for _, ce := range base {
+		c, t := normCond(ce.Cond, ce.Taken)
+		bo, ok := c.(*ssa.BinOp)
+		if !ok || (bo.Op != token.NEQ && bo.Op != token.EQL) {
+			continue
+		}
+		var phi *ssa.Phi
+		if p, isP := bo.X.(*ssa.Phi); isP && isNilConst(bo.Y) {
+			phi = p
+		} else if p, isP := bo.Y.(*ssa.Phi); isP && isNilConst(bo.X) {
+			phi = p
+		}
+		if phi == nil {
+			continue
+		}
+		nonNil := (bo.Op == token.NEQ) == t
+		if !nonNil {
+			continue
+		}
+		pb := phi.Block()
+		var common []condFact
+		first := true
+		for i, ed := range phi.Edges {
+			if isNilConst(ed) {
+				continue // this predecessor leaves the value nil
+			}
+			pred := pb.Preds[i]
+			facts := domFactsE(pred, depth+1, busy, ext)
+			if len(pred.Instrs) > 0 {
+				if ifi, ok := pred.Instrs[len(pred.Instrs)-1].(*ssa.If); ok && pred.Succs[0] != pred.Succs[1] {
+					cc, tt := normCond(ifi.Cond, pred.Succs[0] == pb)
+					facts = append(facts, condFact{cc, tt})
+				}
+			}
+			facts = append(facts, condFact{&ssa.BinOp{Op: token.NEQ, X: ed, Y: ssa.NewConst(nil, ed.Type())}, true})
+			if first {
+				common, first = facts, false
+				continue
+			}
+			var keep []condFact
+			for _, f := range common {
+				for _, g := range facts {
+					if f == g {
+						keep = append(keep, f)
+						break
+					}
+				}
+			}
+			common = keep
+		}
+		for _, f := range common {
+			add(f)
+		}
+	}
 	// helper transparency: outcomes of tests on a helper's result, and the
 	// facts common to all call sites when b lies in a private helper
 	if !ext {
